@@ -120,7 +120,50 @@ def run(name, checks, tier="quick"):
     return results
 
 
+def equiv(name, outdir, checks, tier="quick"):
+    """a behaviour-PRESERVING change written by a sub-agent: store it under /verif/seeded_equiv/<name>, verify that it applies, that
+    its demo and the baseline tests pass, then run the checks against it: every one must stay green (an alarm here is a false alarm)."""
+    global SEEDED
+    d = os.path.join("/verif/seeded_equiv", name)
+    os.makedirs(d, exist_ok=True)
+    for f in ("patch.diff", "demo.py", "notes.md"):
+        if os.path.exists(os.path.join(outdir, f)):
+            shutil.copy(os.path.join(outdir, f), os.path.join(d, f))
+    wt = "/tmp/wt/equiv-%s" % name
+    sh("git -C /repo worktree remove --force %s" % wt)
+    rc, o = sh("git -C /repo worktree add -q --detach %s HEAD" % wt)
+    assert rc == 0, o
+    try:
+        rc, o = sh("git apply %s" % os.path.join(d, "patch.diff"), cwd=wt)
+        if rc != 0:
+            rc, o = sh("patch -p1 -F 3 < %s" % os.path.join(d, "patch.diff"), cwd=wt)
+            assert rc == 0, "patch does not apply: " + o
+            sh("find . -name '*.orig' -delete", cwd=wt)
+            rc2, newp = sh("git diff -- wavespectra", cwd=wt)
+            open(os.path.join(d, "patch.diff"), "w").write(newp)
+        sh("cd %s && %s setup.py build_ext --inplace >/dev/null 2>&1; rm -rf build" % (wt, PY))
+        os.makedirs(wt + "/_out", exist_ok=True)
+        rcd = None
+        if os.path.exists(os.path.join(d, "demo.py")):
+            shutil.copy(os.path.join(d, "demo.py"), wt + "/_out/demo.py")
+            rcd, od = sh([PY, "-W", "ignore", "_out/demo.py"], cwd=wt, env={"PYTHONPATH": wt})
+        missing = baseline(wt)
+        print("equivalent change %s: demo rc=%s, baseline tests no longer passing: %d" % (name, rcd, len(missing)))
+    finally:
+        sh("git -C /repo worktree remove --force %s" % wt)
+    meta = {"name": name, "kind": "behaviour-preserving", "demo_rc": rcd, "baseline_missing": missing[:10], "checks": []}
+    SEEDED = "/verif/seeded_equiv"
+    json.dump(dict(meta, breaks_property=checks[0]), open(os.path.join(d, "meta.json"), "w"), indent=1)
+    res = run(name, checks, tier)
+    for c, r in res.items():
+        meta["checks"].append({"check": c, "tier": tier, "rc": r["rc"], "violations": r["violations"], "first": r["first"]})
+    json.dump(meta, open(os.path.join(d, "meta.json"), "w"), indent=1)
+    return 0
+
+
 if __name__ == "__main__":
+    if sys.argv[1] == "equiv":
+        sys.exit(equiv(sys.argv[2], sys.argv[3], sys.argv[4:], os.environ.get("SEED_TIER", "quick")))
     if sys.argv[1] == "confirm":
         sys.exit(confirm(*sys.argv[2:6]))
     elif sys.argv[1] == "run":
